@@ -7,16 +7,19 @@ import tempfile
 from harness.runner import BCheck
 from scenario import vcf as V
 
-LEVEL = "exploration"
-LEVEL_TEXT = ("Deductive: the loop body of run_unphase and unphase_header are verified over a record/call model of pysam (noexc for every GT shape, "
-              "frame: only GT/phased/HP/PS/PQ change, GT stays a permutation). Bounded: the real run_unphase on generated VCF text (every ploidy per call, "
-              "'.', './.', '0/.', records without GT, PS/HP/PQ in any combination, several samples) compared field by field with an independent text "
-              "parser; idempotence; unphase(phase(x)) = unphase(x).")
+LEVEL = "other"
+LEVEL_TEXT = ("Deductive, all inputs, over an axiomatised pysam record model (contracts/pysam_model.py): run_unphase writes exactly the reader's records in order, none "
+              "modified after it was written; no record keeps an HP/PQ/PS FORMAT key and every other key stays; in records with GT no allele of any call keeps a phase "
+              "bit, a fully known genotype becomes sorted(genotype) (an ordered permutation: same allele multiset) and every other genotype (None, partially missing) is "
+              "left exactly as it was, without any exception (sorting a genotype with a missing allele would raise); records without GT keep their calls untouched; "
+              "unphase_header removes the three FORMAT definitions and only `phasing` header lines. Bounded: the real run_unphase on generated VCF text (every ploidy "
+              "per call, '.', './.', '0/.', records without GT, PS/HP/PQ in any combination, several samples) compared field by field with an independent text parser; "
+              "idempotence; unphase(phase(x)) = unphase(x) - this also exercises the model's clauses against the real pysam.")
 LEVEL_NOTE = "Trusted: pysam/htslib record model in the contract file; htslib's re-serialisation of untouched fields (checked by the bounded differ)."
 TECHNIQUE = "contract-based deductive verification over a pysam record model (vcgen, z3) + bounded runtime contract with independent VCF text differ"
-D_MODULES = []
+D_MODULES = ["contracts.unphase_py"]
 EXPLANATION = LEVEL_TEXT
-TRUSTED_BASE = ["z3/cvc5", "vcgen Python semantics", "pysam VariantRecord/VariantRecordSample modelled as maps (contracts/unphase_py.py)"]
+TRUSTED_BASE = ["z3/cvc5", "vcgen Python semantics", "pysam VariantRecord/VariantRecordSample modelled as maps (contracts/pysam_model.py)"]
 ASSUMPTIONS = ["pysam returns GT as a tuple of int|None and accepts any permutation of it on assignment",
                "htslib writes untouched fields back unchanged (bounded check compares the text)"]
 PHASE_TAGS = ("HP", "PS", "PQ")
